@@ -33,6 +33,10 @@ type spec struct {
 	// (the tree is written while a stream is open on the Writer, so every Put is queued),
 	// "puts" (other objects are Put between the entries), "stream+puts"
 	Ctx string `json:"ctx,omitempty"`
+	// Foreign (api "Foreign"): the tree is not written by go-pdf but rendered by the harness as
+	// another producer would write it (see foreign.go); Fan is its fan-out
+	Foreign string `json:"foreign,omitempty"`
+	Fan     int    `json:"fan,omitempty"`
 	// Mem, if set, makes the case a script on ONE in-memory tree value (see mem.go)
 	Mem *memSpec `json:"mem,omitempty"`
 }
@@ -51,6 +55,9 @@ func (s spec) id() string {
 	}
 	if s.Ctx != "" {
 		id += "/ctx=" + s.Ctx
+	}
+	if s.Foreign != "" {
+		id += fmt.Sprintf("/foreign=%s,fan=%d", s.Foreign, s.Fan)
 	}
 	if s.Mem != nil {
 		id += "/" + s.Mem.String()
@@ -541,6 +548,10 @@ func examine[K cmp.Ordered](s spec, api treeAPI[K], in caseInput, memVal reader[
 	var rootRef pdf.Reference
 	var werr error
 	switch s.API {
+	case "Foreign": // nothing is written by go-pdf; the file is rendered below
+		if len(written) > 0 {
+			rootRef = pdf.NewReference(1, 0)
+		}
 	case "InMemory":
 		rootRef, werr = api.write(w, memVal.All())
 	case "WriteMap":
@@ -599,6 +610,9 @@ func examine[K cmp.Ordered](s spec, api treeAPI[K], in caseInput, memVal reader[
 
 	// --- re-open
 	data := buf.Bytes()
+	if s.API == "Foreign" {
+		data = renderForeign(s.Num, s.Foreign, max(s.Fan, 2), written, vids)
+	}
 	r, err := pdf.NewReader(bytes.NewReader(data), int64(len(data)), nil)
 	if err != nil {
 		return nil, fmt.Errorf("pdf.NewReader: %v", err)
